@@ -262,7 +262,9 @@ Section Machine.
       match e with
       | EStartImport p => start_import st p
       | EFinishImport => (finish_import st, ONone)
-      | ECall m => call_closure st m false
+      | ECall m =>
+        (* a closure's `module` is an existing module object; an ill-formed event is ignored *)
+        if Nat.ltb m (List.length (heap st)) then call_closure st m false else (st, ONone)
       | EReturn =>
         match frames st with
         | _ :: (f :: r) => (load_frame (set_frames st (f :: r)), ONone)
